@@ -467,6 +467,11 @@ class World:
         self.phys = "real_out/" if self.route == "symdir" else ""
         self.refs = {}            # run number -> bytes of the complete new content
         self.inputs = {}          # relative name -> sha of bystander files
+        # inout: the file at the output path is one of the run's own input files ("same": the input option names the output
+        # path; "link": it names a symbolic link to it; "dots": it names ./sub/../<name>)
+        self.inout = case.get("inout", "no")
+        self.inp_bytes = None     # bytes of that input file
+        self.input_links = {}     # relative name -> destination of symbolic links that are inputs
         self.path_of = {}
         for t in ("out", "out2"):
             p = Path(self.phys + self.names[t])
@@ -487,6 +492,34 @@ class World:
             return Path(os.path.abspath(self.run / name))
         return Path(name)
 
+    def input_as_occupant(self, prog, files, kw):
+        """make the run read one of its inputs from the file at the output path: gen_coords -c, gen_params -f (first file).
+        Returns the bytes of that input; files / kw are changed in place."""
+        if self.inout == "no":
+            return None
+        if prog == "gen_coords" and kw.get("coordpath") is not None:
+            name = str(kw["coordpath"])
+        elif prog == "gen_params" and kw.get("inpath"):
+            name = str(kw["inpath"][0])
+        else:
+            raise c.MachineryError("input %s of %s has no input file that can occupy the output path" % (self.case["runs"][0]["input"], prog))
+        src = files.pop(name)
+        data = src.encode() if isinstance(src, str) else Path(src).read_bytes()
+        out = Path(self.names["out"])
+        if self.inout == "same":
+            spelled = self.given("out")
+        elif self.inout == "link":
+            spelled = out.with_name("start_from" + out.suffix)
+            self.input_links[str(spelled)] = out.name
+        else:
+            spelled = Path("./sub/../" + str(out))
+        if prog == "gen_coords":
+            kw["coordpath"] = spelled
+        else:
+            kw["inpath"] = [spelled] + list(kw["inpath"][1:])
+        self.inp_bytes = data
+        return data
+
     def setup(self):
         shutil.rmtree(self.root, ignore_errors=True)
         self.run.mkdir(parents=True)
@@ -494,8 +527,11 @@ class World:
         if self.route == "symdir":
             (self.run / "real_out").mkdir()
             os.symlink("real_out", self.run / "via")
-        if self.route == "dots":
+        if self.route == "dots" or self.inout == "dots":
             (self.run / "sub").mkdir()
+        for rel, dest in self.input_links.items():
+            (self.run / rel).parent.mkdir(parents=True, exist_ok=True)
+            os.symlink(dest, self.run / rel)
         (self.run / OTHER_NAME).write_bytes(OTHER)
         for key, cont in self.case["init"].items():
             if cont == "absent" or key == "other":
@@ -507,6 +543,10 @@ class World:
                 os.symlink(Path(self.path_of["tgt"]).name, p)
             elif cont == "lold":
                 p.write_bytes(LOLD)
+            elif cont == "inp":
+                if self.inp_bytes is None:
+                    raise c.MachineryError("initial content 'inp' without an input file")
+                p.write_bytes(self.inp_bytes)
             else:
                 p.write_bytes(OLD if cont == "old" else bk_bytes(int(cont[2:])))
         if not self.case.get("no_parent"):
@@ -531,6 +571,8 @@ class World:
             return "old"
         if data == LOLD:
             return "lold"
+        if self.inp_bytes is not None and data == self.inp_bytes:
+            return "inp"
         for i in range(1, 9):
             if data == bk_bytes(i):
                 return "bk%d" % i
@@ -549,12 +591,18 @@ class World:
         fs = {k: "absent" for k in self.path_of}
         odd = []
         seen_inputs = {}
+        seen_links = set()
         for p in sorted(self.run.rglob("*")):
             rel = str(p.relative_to(self.run))
             try:
                 if p.is_symlink():
                     dest = os.readlink(p)
                     if self.route == "symdir" and rel == "via" and dest == "real_out":
+                        continue
+                    if rel in self.input_links:
+                        if dest != self.input_links[rel]:
+                            odd.append("input link %s now points to %s" % (rel, dest))
+                        seen_links.add(rel)
                         continue
                     if rel in self.abs_of and dest == Path(self.path_of["tgt"]).name:
                         fs[self.abs_of[rel]] = "link"
@@ -575,6 +623,9 @@ class World:
                 seen_inputs[rel] = hashlib.sha1(data).hexdigest()
             else:
                 odd.append("unexpected file %s (%s)" % (rel, self.classify(data)))
+        for rel in self.input_links:
+            if rel not in seen_links:
+                odd.append("input link %s removed" % rel)
         for rel, h in self.inputs.items():
             if rel not in seen_inputs:
                 odd.append("file %s removed" % rel)
@@ -659,6 +710,10 @@ def run_case(case, root, refs):
     """execute one case in this process. refs: {(input key, run number): bytes}. Returns {"events": [...], "info": {...}}"""
     from vermouth.file_writer import DeferredFileWriter
     w = World(root, case)
+    first = None
+    if w.inout != "no":
+        first = inputs(case["runs"][0]["input"], w.given(case["runs"][0]["target"]))
+        w.input_as_occupant(first[0], first[1], first[2])
     w.setup()
     info = {"unplanned": [], "unreached": [], "missing_targets": [], "observer_error": None}
     if DeferredFileWriter().open_files:
@@ -670,10 +725,10 @@ def run_case(case, root, refs):
     try:
         for r, rn in enumerate(case["runs"], 1):
             out = w.given(rn["target"])
-            prog, files, kw = inputs(rn["input"], out)
+            prog, files, kw = first if (first is not None and r == 1) else inputs(rn["input"], out)
             w.add_inputs(files)
             w.refs[r] = refs[(rn["input"], r)]
-            head = {"run": r, "var": {"prog": prog, "on": sorted(rn["on"]), "route": w.route}, "target": rn["target"]}
+            head = {"run": r, "var": {"prog": prog, "on": sorted(rn["on"]), "route": w.route, "inout": w.inout}, "target": rn["target"]}
             if case.get("fresh_queue") and r > 1:
                 # a new process: the singleton starts empty, the temp files of the old process stay on disk
                 DeferredFileWriter().open_files.clear()
